@@ -750,6 +750,14 @@ pub fn check_generation(
             let aux = json!({"generation": gen_no, "point": p, "model": format!("{cm:?}"), "in_recovery": marks.in_recovery[p], "in_flush": marks.in_flush[p], "index_update_open": marks.index_update_open[p], "arena_full_allowed": known_f03,
                 "unsynced_files": fs.files.iter().filter(|(_, f)| f.synced < f.data.len()).map(|(k, f)| format!("{k}:{}/{}", f.synced, f.data.len())).collect::<Vec<_>>() });
             match open_and_scan(ctx.cfg, &img.join("db"), ctx.rt, if ctx.judge == Judge::Reopen { Some(&probe_keys[..]) } else { None }) {
+                Opened::Panicked(m) if ctx.judge == Judge::History && marks.index_update_open[p] => {
+                    // F44 once more: code that walks the torn index can also panic on what it finds there
+                    let mut f = fail("recovery-panic", format!("{what}: opening the image panicked: {m}"), aux);
+                    f.aux["f44_window"] = json!(true);
+                    ctx.stats.inc("crash_inside_index_update_made_the_open_panic");
+                    deferred_known.get_or_insert(f);
+                    continue;
+                }
                 Opened::Panicked(m) => return Err(fail("recovery-panic", format!("{what}: opening the image panicked: {m}"), aux)),
                 Opened::OpenFailed(e) if ctx.judge == Judge::Reopen => {
                     if let Ok(keep) = std::env::var("VERIF_KEEP_IMG") {
